@@ -79,3 +79,18 @@ Example ex_long_line :
   length (inbuffer (crun [] (init str) (reads [repeat 120 600]))) = 600%nat /\
   delivered (crun [] (init str) (reads cs)) = [line].
 Proof. vm_compute. repeat split; reflexivity. Qed.
+
+(* the history of finding C11.F47: the beginning of a line received, a message
+   half sent, the socket fails (code 104), then reconnect: alive, so the
+   hypothesis of C11_reconnect_fresh holds; the new socket gets "CAP LS\r\n" only
+   and the first line of the new server is delivered alone *)
+Example ex_reconnect :
+  let old := [EvRead (Data [58;111;108;100]) [] (Sent 0);
+              EvSend [[80;82;73;86;77;83;71;32;120;13;10]] (Sent 4); EvSend [] (SErr 104)] in
+  let st1 := crun [] (init str) old in
+  let st2 := crun [] (init str) (old ++ [EvReconnect; EvSend [[67;65;80;13;10]] (Sent 99);
+                                         EvRead (Data [58;110;101;119;10]) [] (Sent 0)]) in
+  dead st1 = None /\ connected st1 = false /\ inbuffer st1 = [58;111;108;100] /\
+  outbuffer st1 = [77;83;71;32;120;13;10] /\
+  wire st2 = [67;65;80;13;10] /\ delivered st2 = [[58;110;101;119]].
+Proof. vm_compute. repeat split; reflexivity. Qed.
